@@ -176,7 +176,13 @@ def run(prop, tier, replay_path=None):
             kf_results.append(r)
     for r in results:
         r["behaviour"] = behaviours[r["idx"]]
-    return verdict(prop, tier, jobs, behaviours, results + kf_results, t0)
+    # B2: record the internal steps of a spread sample of the histories and validate them against the spec
+    import tracecheck
+    tv = []
+    for tag, flags in (("f0", ["--combine", "0"]), ("f1", ["--combine", "1"])):
+        rs, _ = tracecheck.record_and_validate(path, prop + "_" + tag, flags, [sd], per_shard=6 if tier == "quick" else 40)
+        tv += rs
+    return verdict(prop, tier, jobs, behaviours, results + kf_results, t0, tv)
 
 
 def relevant(prop, v):
@@ -185,8 +191,12 @@ def relevant(prop, v):
     return v["prop"] == prop
 
 
-def verdict(prop, tier, jobs, behaviours, results, t0):
+def verdict(prop, tier, jobs, behaviours, results, t0, tv=()):
     violations, known_hits = [], []
+    for r in tv:
+        if not r["accepted"] and r.get("prop") == prop:
+            p = save_replay(prop, len(violations), {"kind": "trace", "trace": r["norm_path"], "raw": r["raw_path"], "what": r["what"]})
+            violations.append(("trace validation: " + r["what"], p))
     steps = queries = replays = nontrivial = 0
     seen_nt = set()
     for r in results:
@@ -221,7 +231,9 @@ def verdict(prop, tier, jobs, behaviours, results, t0):
     coverage = {
         "states": sum(j["distinct"] for j in jobs),
         "transitions": sum(j["states"] for j in jobs),
-        "traces_validated_against_impl": replays,
+        "traces_validated_against_impl": replays + sum(1 for r in tv if r["accepted"]),
+        "recorded_traces": {"files": len(tv), "events": sum(r["events"] for r in tv), "accepted": sum(1 for r in tv if r["accepted"]),
+                            "rejected_for_other_property": [r["what"][:200] for r in tv if not r["accepted"] and r.get("prop") != prop][:5]},
         "samples": [json.loads(l) for l in behaviours[len(behaviours) // 2: len(behaviours) // 2 + 2]],
         "evaluations": steps,
         "distinct_nontrivial": nontrivial,
